@@ -1,10 +1,10 @@
 SPECIFICATION Spec
 CONSTANTS
-  NamesUsed = {"r1", "l1", "l2", "m1"}
-  InitAuto = FALSE
-  Broken = FALSE
+  NamesUsed = {"l2"}
+  InitAuto = TRUE
+  Broken = TRUE
   TwoPaths = FALSE
-  MaxLen = 4
+  MaxLen = 6
 INVARIANTS
   TypeOK
   Emit
@@ -16,4 +16,5 @@ PROPERTIES
   P4
   P5
   P6
+  P3broken
 CHECK_DEADLOCK FALSE
